@@ -17,6 +17,7 @@ CInitConsts ==
     /\ FaultKinds = {"add", "remove", "unlist", "stop", "start", "restart", "droppooled", "dropctrl", "dropall", "mute"}
     /\ FirstHost = "h1"
     /\ TimerStoppedOnClose = FALSE
+    /\ EventsBlockRefresh = FALSE
     /\ MaxQ = 3
 
 CInitHazard ==
@@ -24,6 +25,7 @@ CInitHazard ==
     /\ FaultKinds = {"add", "remove", "unlist", "stop", "start", "restart", "droppooled", "dropctrl", "dropall", "mute"}
     /\ FirstHost = "h1"
     /\ TimerStoppedOnClose = TRUE
+    /\ EventsBlockRefresh = FALSE
     /\ MaxQ = 3
 
 Events == {"topology", "status_up", "status_down"}
